@@ -4,6 +4,7 @@
 # copy with evidence/replay redirected, prints one line per check, and removes the copy.
 set -u
 PATCH=$(readlink -f "$1"); shift
+VDIR=$(cd "$(dirname "$(readlink -f "$0")")/.." && pwd)      # the verif tree this script belongs to (a snapshot copy works too)
 D=$(mktemp -d /tmp/vmut.XXXXXX)
 trap 'rm -rf "$D"' EXIT
 mkdir -p "$D/repo"
@@ -12,7 +13,7 @@ if ! (cd "$D/repo" && patch -p1 -s --no-backup-if-mismatch < "$PATCH"); then
   echo "PATCH-FAILED $PATCH"; exit 9
 fi
 for c in "$@"; do
-  OUT=$(cd /verif && VERIF_REPO="$D/repo" VERIF_OUT_DIR="$D/out" ./check "$c" 2>&1)
+  OUT=$(cd "$VDIR" && VERIF_REPO="$D/repo" VERIF_OUT_DIR="$D/out" ./check "$c" 2>&1)
   RC=$?
   N=$(echo "$OUT" | grep -c "^  violation:")
   echo "== $(basename $PATCH) $c rc=$RC"
